@@ -23,6 +23,7 @@ access(all) contract World {
     access(all) event Rich(a: Int, b: String, c: [UInt8], d: {String: Int}, e: Address, f: Int?, g: Type, h: StoragePath, i: S, k: UFix64, l: [S], m: Bool, n: Character)
 
     access(all) var counter: Int
+    access(all) var caps: {Int: Capability}
 
     access(all) struct interface SI {
         access(all) fun tag(): String
@@ -169,7 +170,9 @@ access(all) contract World {
                   i: S(n, [n], {}, [], nil, nil), k: 1.5, l: [S(1, [], {}, [], "z", [1])], m: n > 3, n: "x")
     }
 
-    init() { self.counter = 0 }
+    access(all) fun putCap(_ n: Int, _ c: Capability) { self.caps[n] = c }
+    access(all) fun getCap(_ n: Int): Capability? { return self.caps[n] }
+    init() { self.counter = 0; self.caps = {} }
 }
 `
 
